@@ -36,6 +36,11 @@ def run(rep, tier):
     for pre in (["ab", "éb", "✓😀", "ßé"], ["", ""], ["xyz =", "xÿ✓ =", "😀😀😀 ="]):
         for slot in ("nope", "1 + null", "f(", "[1][5]"):
             groups.append([('q := 1; print(1)\nprint($"%s${%s} tail")\n' % (p, slot)) for p in pre])
+    # ... and with an earlier slot in the same literal: what the earlier slot contains does not matter either, only where the failing one starts
+    for slot in ("nope", "1 + null", "f(", "[1][5]"):
+        for tail in ("", "é"):
+            groups.append([('a := "s"; aaaa := "s"\nprint($"%s%s${%s} tail")\n' % (first, tail, slot)) for first in ("${a}xxxx", "${aaaa}x", "${a+a}xx", "${a}é✓😀ß", "${ a  }x")])
+            groups.append([('a := "s"; aaaa := "s"\nprint($"${a}%s%s${aaaa}${%s}")\n' % (tail, mid, slot)) for mid in ("${a}xxxx", "${aaaa}x", "${a+a}xx")])
     for grp in groups:
         obs = core.run_many([{"src": t} for t in grp])
         rep.evaluations += len(grp)
